@@ -1,6 +1,6 @@
 """C13 / C14 driver: proof editing on real ProofState objects (server/method.py, kernel/proof.py, app/ide.py).
 
-usage: python -m harness.drivers.c13 <mode> <out.ndjson> <seed> <n_theorems> <theory>[,<theory>...] [<n_sessions>]
+usage: python -m harness.drivers.c13 <mode> <out.ndjson> <seed> <n_theorems> <theory>[,<theory>...] [<n_sessions> [<max_steps>]]
        python -m harness.drivers.c13 lineedit <vectors (TLC log of spec/C13_LineEdit.tla)> <out.ndjson> <seed>
   mode = edit     C13 events: after every editing operation that completes (recorded steps replayed live or on a copy, seeded
                   random walks of up to 4 further operations: other methods / goals / facts, cut, cases, new_var, introduction,
@@ -157,12 +157,14 @@ class Out:
         self.f.write(json.dumps(ev, separators=(",", ":")) + "\n")
 
 
-def thm_iter(theories, rnd, n_per):
-    """yield (theory, item) for sampled theorems with recorded steps; the theory is extended item by item as monitor.check_theory does"""
+def thm_iter(theories, rnd, n_per, max_steps=0):
+    """yield (theory, item) for sampled theorems with recorded steps (max_steps > 0: of at most that many steps); the theory is
+    extended item by item as monitor.check_theory does"""
     for th in theories:
         data = basic.load_json_data(th)
         basic.load_theory(th, limit="start")
-        cands = [i for i, raw in enumerate(data["content"]) if raw.get("ty") == "thm" and raw.get("steps")]
+        cands = [i for i, raw in enumerate(data["content"]) if raw.get("ty") == "thm" and raw.get("steps")
+                 and (max_steps <= 0 or len(raw["steps"]) <= max_steps)]
         chosen = set(rnd.sample(cands, min(n_per, len(cands))))
         for i, raw in enumerate(data["content"]):
             item = items.parse_item(raw)
@@ -291,8 +293,8 @@ def random_walks(out, thname, item, goal, state, idx, rnd, nwalks, maxdepth, ext
     return n
 
 
-def run_edit(out, theories, rnd, n_per):
-    for thname, item in thm_iter(theories, rnd, n_per):
+def run_edit(out, theories, rnd, n_per, max_steps=0):
+    for thname, item in thm_iter(theories, rnd, n_per, max_steps):
         try:
             context.set_context(None, vars=item.vars)
             state = server.parse_init_state(item.prop)
@@ -799,7 +801,7 @@ if __name__ == "__main__":
     rnd = random.Random(seed_)
     out = Out(path)
     if mode == "edit":
-        run_edit(out, theories, rnd, n_per)
+        run_edit(out, theories, rnd, n_per, int(sys.argv[7]) if len(sys.argv) > 7 else 0)
         if len(sys.argv) > 6 and int(sys.argv[6]) > 0:
             run_sessions(out, random.Random(seed_ + 1), int(sys.argv[6]))
     else:
